@@ -20,7 +20,7 @@ LEVEL = "exploration"
 def plan(tier):
     if tier == "thorough":
         return dict(rounds=960, examples_per_round=100, wall_cap=3000, job_timeout=1500)
-    return dict(rounds=64, examples_per_round=60, wall_cap=420, job_timeout=600)
+    return dict(rounds=96, examples_per_round=60, wall_cap=420, job_timeout=600)
 
 
 _burn = st.one_of(st.sampled_from([0, 0, 1, 2]), st.integers(0, 40), st.sampled_from(["len-1", "len", "len+3", "len-2"]))
